@@ -101,7 +101,9 @@ def wfMime (produces reg : List Str) : Bool :=
 /-- the default type, when set, has a writer (true for JSON and XML on every real registry) -/
 def defaultOK (reg : List Str) (d : Str) : Bool := !defaultSet d || reg.contains d
 
-/-- class of finding F07: no Accept header and a default response content type is set -/
+/-- class of the REPAIRED finding F07 (d89a7d4): no Accept header and a default response content type
+    is set.  No theorem assumes anything about it any more; the driver still reports it so that the
+    check can measure that the stream keeps visiting the formerly defective class. -/
 def F07 (accept dflt : Str) : Bool := accept.isEmpty && defaultSet dflt
 
 /-- class of finding F07b: the router admits the (non-empty) header, but none of its well-formed
